@@ -205,6 +205,43 @@ def fRead (par : Armor.Params) (expect : Armor.Expect) (cap : Nat) (f : FState) 
       if e == .eof && !d.isEmpty then (d, none, f3) else (d, some e, f3)
     else (d, none, f2)
 
+/-! ### the `Frame` interface of `framedDecoderStream` (GetHeader / GetBrand / GetFooter), usable at any time -/
+
+/-- `GetHeader()`: loads the header first if that has not happened yet -/
+def fGetHeader (par : Armor.Params) (expect : Armor.Expect) (f : FState) : Except RErr Bytes × FState :=
+  let (e, f1) := fLoadHeader par expect f
+  match e with
+  | some x => (.error x, f1)
+  | none =>
+    match Armor.toASCII par f1.hdr with
+    | .ok h => (.ok h, f1)
+    | .error x => (.error (.err x), f1)
+
+/-- `GetBrand()`: likewise; the brand the header checker extracted (empty without a checker) -/
+def fGetBrand (par : Armor.Params) (expect : Armor.Expect) (f : FState) : Except RErr Bytes × FState :=
+  let (e, f1) := fLoadHeader par expect f
+  match e with
+  | some x => (.error x, f1)
+  | none => (.ok f1.brand, f1)
+
+/-- `GetFooter()`: `none` = "the footer can be retrieved only after the stream has been exhausted"
+    (`s.state < fdsFooter`); otherwise the trimmed footer read so far -/
+def fGetFooter (par : Armor.Params) (f : FState) : Option (Except Err Bytes) :=
+  match f.phase with
+  | .header | .body => none
+  | _ => some (Armor.toASCII par f.ftr)
+
+/-- `CheckArmor62Frame(frame, typ)`: GetHeader (its error), GetFooter (`none` = not ready yet), then `CheckArmor62` -/
+def fCheckFrame (par : Armor.Params) (expect : Armor.Expect) (typ : Int) (f : FState) :
+    Except RErr (Option (Except Err Bytes)) × FState :=
+  match fGetHeader par expect f with
+  | (.error x, f1) => (.error x, f1)
+  | (.ok h, f1) =>
+    match fGetFooter par f1 with
+    | none => (.ok none, f1)
+    | some (.error x) => (.ok (some (.error x)), f1)
+    | some (.ok ft) => (.ok (some (Armor.checkArmor62 h ft typ)), f1)
+
 /-! ### filteringReader (after the D11 fix) -/
 
 structure FilState where
